@@ -2013,7 +2013,9 @@ pub fn run_check(check: &dyn Check, cfg: &RunConfig) -> i32
 			Ordering::SeqCst,
 		);
 		let clen = stream.choice_len();
-		let (choices, detail2, steps) = if clen > 0
+		// development aid: PV_NO_SHRINK=1 reports the unshrunk case at once
+		let no_shrink = std::env::var("PV_NO_SHRINK").map(|v| v == "1").unwrap_or(false);
+		let (choices, detail2, steps) = if clen > 0 && !no_shrink
 		{
 			let (c, d, st) =
 				shrink(id, sname, *idx, clen, sig, cfg, stream.timeout());
@@ -2033,7 +2035,7 @@ pub fn run_check(check: &dyn Check, cfg: &RunConfig) -> i32
 		// source-level reduction, for checks whose oracle needs only the source
 		let reduced = match source_of_detail(&detail2)
 		{
-			Some(files) if check.source_level(sname) =>
+			Some(files) if check.source_level(sname) && !no_shrink =>
 			{
 				reduce_source(id, sname, files, sig, cfg, stream.timeout())
 			}
